@@ -3,7 +3,7 @@
 T=/tmp/tryall-$$; rsync -a --exclude .git /repo/ $T/; (cd $T && patch -p1 -s < $1) || { rm -rf $T; echo "patch failed"; exit 1; }
 caught=""
 for p in $(jq -r '.checks[].property_id' /verif/MANIFEST.json); do
-  out=$(/verif/bin/vcheck -property $p -no-evidence -repo $T 2>&1); rc=$?
+  out=$(${VCHECK:-/verif/bin/vcheck} -property $p -no-evidence -repo $T 2>&1); rc=$?
   if [ $rc -ne 0 ]; then caught="$caught $p"; echo "$out" | grep -B2 "^VIOLATION" | grep -v "^VIOLATION\|^--" | head -4 | cut -c1-${2:-230}; fi
 done
 echo "caught_by:${caught:- NONE}"
